@@ -631,6 +631,7 @@ impl Prop for C05 {
             "probe.band_just_above_q_refused",
             "probe.band_just_below_q_accepted",
             "probe.crafted_generation_checked",
+            "probe.embedded_pair_found",
             "fault.entropy.customer-zero-draw",
         ]
     }
@@ -748,6 +749,70 @@ fn pair_codec(o: &mut Outcome, seed: u64) {
             o.violate("generated-pair-rejected-by-decoder", "RevocationPair::new", format!("a generated pair (band {}) does not decode", band));
         }
         o.bump("probe.crafted_generation_checked");
+    }
+    // (c) pairs that enter the program inside something else: every stored customer stage and
+    // every message of an honest session that carries a (lock, secret, index) triple is decoded
+    // with the secret replaced (banded and random secrets), the index changed, the lock changed;
+    // whatever decodes must still be a hash pair
+    let samples = crate::harvest::cached(1, 0, "9001");
+    let reg = crate::types::registry();
+    let mut sch = crate::rng::Sched::new(seed, "c05/embedded-pairs");
+    for smp in samples.iter() {
+        let locks: Vec<usize> = (0..smp.trace.atoms.len())
+            .filter(|&i| {
+                let p = &smp.trace.atoms[i].path;
+                (p == "lock" || p.ends_with(".lock")) && smp.trace.atoms[i].len == 32
+            })
+            .collect();
+        for li in locks {
+            let lp = smp.trace.atoms[li].path.clone();
+            let prefix = lp[..lp.len() - "lock".len()].to_string();
+            let (si, ii) = match (smp.trace.find(&format!("{}secret.secret", prefix)), smp.trace.find(&format!("{}secret.index", prefix))) {
+                (Some(a), Some(b)) => (a, b),
+                _ => continue,
+            };
+            o.bump("probe.embedded_pair_found");
+            let mut cands: Vec<(String, crate::atoms::Trace)> = Vec::new();
+            for (band, secret, _) in bands.iter() {
+                let mut t = smp.trace.clone();
+                t.set_atom(si, secret);
+                cands.push((format!("secret:=band{}", band), t));
+            }
+            for k in 0..6 {
+                let mut t = smp.trace.clone();
+                t.set_atom(si, &sch.bytes(32));
+                cands.push((format!("secret:=random{}", k), t));
+            }
+            for d in [1u8, 2, 255] {
+                let mut t = smp.trace.clone();
+                let b = [smp.trace.atom_bytes(ii)[0].wrapping_add(d)];
+                t.set_atom(ii, &b);
+                cands.push((format!("index+={}", d), t));
+            }
+            {
+                let mut t = smp.trace.clone();
+                t.set_atom(li, &refc::scb(&refc::rand_scalar(&mut sch)));
+                cands.push(("lock:=random".into(), t));
+            }
+            for (what, t) in cands {
+                o.events += 1;
+                o.bump("fault.lock.embedded-pair-altered");
+                if let Ok(re) = (reg.get(&smp.ty).decode)(&t.bytes) {
+                    // the decoded value, re-encoded: same layout (only fixed-size atoms were altered)
+                    let view = if re.len() == t.bytes.len() { crate::atoms::Trace { bytes: re, atoms: t.atoms.clone() } } else { t.clone() };
+                    let ok = refc::rev_lock(view.atom_bytes(si), view.atom_bytes(ii)[0]).map(|l| refc::scb(&l)[..] == *view.atom_bytes(li)).unwrap_or(false);
+                    if !ok {
+                        o.violate(
+                            "decoded-pair-not-hash-pair",
+                            &format!("{}:{}", smp.ty, lp),
+                            format!("{} with {} of the pair at `{}` decodes: a pair whose lock is not the canonical-scalar SHA3 hash of its secret and index exists in the program", smp.ty, what, lp),
+                        );
+                    } else {
+                        o.bump("probe.embedded_pair_altered_still_valid");
+                    }
+                }
+            }
+        }
     }
     o.nontrivial = true;
     o.shape = mix(&[0xC05C, seed]);
